@@ -460,6 +460,16 @@ func (fx *c10Fix) call(e *vnative.Env, ev string) vnative.CallResult {
 			panic(err)
 		}
 		return gov(governance.WITHDRAW, sink.Bytes(), wit(a))
+	case "approve": // deprecated admin path: only for RegisterCandidateStatus peers
+		(&governance.ApproveCandidateParam{PeerPubkey: fx.peer[f[1]]}).Serialization(sink)
+		return gov(governance.APPROVE_CANDIDATE, sink.Bytes(), wit("ADM"))
+	case "reject":
+		(&governance.RejectCandidateParam{PeerPubkey: fx.peer[f[1]]}).Serialization(sink)
+		return gov(governance.REJECT_CANDIDATE, sink.Bytes(), wit("ADM"))
+	case "unreg":
+		p := f[1]
+		(&governance.UnRegisterCandidateParam{PeerPubkey: fx.peer[p], Address: fx.actor[fx.owner[p]]}).Serialization(sink)
+		return gov(governance.UNREGISTER_CANDIDATE, sink.Bytes(), wit(fx.owner[p]))
 	case "quit":
 		p := f[1]
 		(&governance.QuitNodeParam{PeerPubkey: fx.peer[p], Address: fx.actor[fx.owner[p]]}).Serialization(sink)
@@ -515,8 +525,21 @@ func (fx *c10Fix) call(e *vnative.Env, ev string) vnative.CallResult {
 	case "gas": // gas:set
 		(&governance.GasAddress{Address: fx.actor["DAPP"]}).Serialization(sink)
 		return gov(governance.SET_GAS_ADDRESS, sink.Bytes(), wit("ADM"))
-	case "dapp": // dapp:pct  (updateGlobalParam2, other fields at their defaults)
-		if err := (&governance.GlobalParam2{MinAuthorizePos: 500, CandidateFeeSplitNum: 49, DappFee: u32(f[1])}).Serialization(sink); err != nil {
+	case "gp": // gp:A:B:penalty  (updateGlobalParam, other fields as InitConfig set them)
+		(&governance.GlobalParam{CandidateFee: 500000000000, MinInitStake: 10000, CandidateNum: 49, PosLimit: 20,
+			A: u32(f[1]), B: u32(f[2]), Yita: 5, Penalty: u32(f[3])}).Serialization(sink)
+		return gov(governance.UPDATE_GLOBAL_PARAM, sink.Bytes(), wit("ADM"))
+	case "cfg": // cfg:K  (updateConfig; takes effect at the next settlement)
+		k := u32(f[1])
+		(&governance.Configuration{N: k, C: 2, K: k, L: 16 * k, BlockMsgDelay: 10000, HashMsgDelay: 10000,
+			PeerHandshakeTimeout: 10, MaxBlockChangeView: c10Cycle}).Serialization(sink)
+		return gov(governance.UPDATE_CONFIG, sink.Bytes(), wit("ADM"))
+	case "dapp": // dapp:pct[:splitNum]  (updateGlobalParam2, other fields at their defaults)
+		num := uint32(49)
+		if len(f) > 2 {
+			num = u32(f[2])
+		}
+		if err := (&governance.GlobalParam2{MinAuthorizePos: 500, CandidateFeeSplitNum: num, DappFee: u32(f[1])}).Serialization(sink); err != nil {
 			panic(err)
 		}
 		return gov(governance.UPDATE_GLOBAL_PARAM2, sink.Bytes(), wit("ADM"))
